@@ -1,5 +1,6 @@
 import EgVerif.Model.CircuitBreaker
 import EgVerif.Gen.FactsC08IR
+import EgVerif.Gen.FactsC08IRw
 /-!
 Regenerated tie by translation for C08 (`notes/IR.md`): the `…IR` definitions of `Gen.FactsC08IR` are
 produced on every run by the go/ast micro-translator (`harness/factextract/irlib.go`) from the current
@@ -92,5 +93,12 @@ theorem timePush_regenerated_from_source (w : TimeWin) (now : Int) (r : Res)
   · cases r <;> simp [hlt]
   · have hle : bk'.length ≤ idx := Nat.le_of_not_lt hlt
     cases r <;> simp [List.set_eq_of_length_le hle]
+
+/-- **`circuitBreakerWrapper.Wrap` (the returned closure), regenerated from the source — with its deferred
+`if panicked { RecordResult(stateID, true, …) }` inlined before every return and on the panic path — is
+the model's `wrap`** (Extension resil; `irSpec.DeferInline`). -/
+theorem wrap_regenerated_from_source (permitted : Bool) (o : Outcome) :
+    EgVerif.Gen.FactsC08IRw.wrapIR permitted o = wrap permitted o := by
+  cases permitted <;> cases o <;> rfl
 
 end EgVerif.CircuitBreaker
